@@ -39,7 +39,7 @@ MANIFEST = dict(
           "(flush per block, rotate per segment, GOMAXPROCS=maxBlocks, sort index on/off, head n, from/size paging)."),
     note=("recentLast is never selected by NewQueryProcessor, so it is bound at function level only (the model shows it can "
           "livelock; reported as a note, not a violation). The six glue lines of fetchRRCs are transcribed in the fn harness and "
-          "exercised for real only at e2e level. Sort values are an abstract domain of 13 representatives; multi-key tables "
+          "exercised for real only at e2e level. Sort values are an abstract domain of 17 representatives (incl. numeric-looking non-number strings); multi-key tables "
           "have 2 keys x 2 rows; ip() sort and sort on missing columns are not covered. PQS-accelerated blocks are not covered."),
     design_ref="DESIGN.md 4/C05",
 )
@@ -143,7 +143,98 @@ def searcher_fn(chk, binary, sc, cfgs, keep):
 
 # --------------------------------------------------------------------------- sort order, function level
 
-STR_OF_ORD = {1: "10", 2: "9", 3: "A", 4: "a", 5: "b"}
+# byte-ordered string table of spec/SortOrderConsts.tla: ords 1, 2, 4, 5, 6 only LOOK numeric (0-9 . - + e E), 3 and 7 are numbers
+STR_OF_ORD = {1: "1-2", 2: "1.2.3", 3: "10", 4: "10.0.0.7", 5: "10.0.0.9", 6: "2024-01-17", 7: "9", 8: "A", 9: "a", 10: "b"}
+
+
+def val_class(v):
+    if v["k"] == "z":
+        return "null"
+    if v["k"] == "n":
+        return "num"
+    return "numstr" if v["isnum"] else ("numlike" if v.get("nl") else "word")
+
+
+def table_signature(b):
+    """which value classes meet in each key column (a class counted up to twice: two values of a class must be ordered
+    against each other), whether two numbers are closer than 1e-4, the ops and directions"""
+    cols = []
+    for ki in range(len(b["spec"])):
+        cnt = {}
+        for r in b["tbl"]:
+            c = val_class(r[ki])
+            cnt[c] = min(2, cnt.get(c, 0) + 1)
+        cols.append(tuple(sorted(cnt.items())))
+    return (tuple(cols), close_pair(b["tbl"]), tuple((e["op"], e["asc"]) for e in b["spec"]))
+
+
+def table_features(b):
+    """coarse features of a (sort spec, table): every unordered pair of value classes that meet in a key column
+    (same class twice included: two IPs, two close numbers ...), op and direction of each key, number of keys"""
+    f = set()
+    for ki, e in enumerate(b["spec"]):
+        cls = [val_class(r[ki]) for r in b["tbl"]]
+        for i in range(len(cls)):
+            for j in range(i + 1, len(cls)):
+                if b["tbl"][i][ki] != b["tbl"][j][ki]:
+                    f.add(("pair", ki > 0) + tuple(sorted((cls[i], cls[j]))) + (e["op"], e["asc"]))
+    if close_pair(b["tbl"]):
+        f.add(("close",))
+    f.add(("keys", len(b["spec"]), len(b["tbl"])))
+    return f
+
+
+def by_features(lines, n, rnd):
+    """n lines such that every feature is represented as evenly as possible (greedy round-robin over the features)"""
+    if n is None or len(lines) <= n:
+        return list(lines)
+    idx = {}
+    for i, b in enumerate(lines):
+        for f in table_features(b):
+            idx.setdefault(f, []).append(i)
+    feats = sorted(idx, key=repr)
+    for f in feats:
+        rnd.shuffle(idx[f])
+    taken, out = set(), []
+    while len(out) < n:
+        progressed = False
+        for f in feats:
+            while idx[f] and idx[f][-1] in taken:
+                idx[f].pop()
+            if idx[f]:
+                i = idx[f].pop()
+                taken.add(i)
+                out.append(lines[i])
+                progressed = True
+                if len(out) >= n:
+                    break
+        if not progressed:
+            break
+    return out
+
+
+def stratified(lines, n, rnd, sig=table_signature):
+    """n lines, round-robin over the signatures (every combination of value classes is represented, however rare)"""
+    if n is None or len(lines) <= n:
+        return list(lines)
+    strata = {}
+    for b in lines:
+        strata.setdefault(sig(b), []).append(b)
+    keys = sorted(strata, key=repr)
+    for k in keys:
+        rnd.shuffle(strata[k])
+    out = []
+    while len(out) < n:
+        progressed = False
+        for k in keys:
+            if strata[k]:
+                out.append(strata[k].pop())
+                progressed = True
+                if len(out) >= n:
+                    break
+        if not progressed:
+            break
+    return out
 
 
 def concrete_val(v):
@@ -565,6 +656,11 @@ def run(chk):
     rt = vlib.run_tlc("MC_SortOrderLaw", "MC_SortOrderLaw_tol.cfg", timeout=600, workers=4)
     if "is false" not in rt.out:
         raise vlib.Infra("model sensitivity lost: tolerance 1e-4 in the numeric comparison no longer breaks the order laws")
+    rk = vlib.run_tlc("MC_SortOrderLaw", "MC_SortOrderLaw_looks.cfg", timeout=600, workers=4)
+    if "is false" not in rk.out:
+        raise vlib.Infra("model sensitivity lost: ranking numeric-LOOKING strings as numbers no longer breaks the StringOrder law")
+    chk.cov["model_sensitivity_2"] = ("RankByLooks=TRUE (a string made of 0-9.-+eE ranks as a number although it does not convert) makes "
+                                      "StringOrder fail at model level: IPs / dates / versions are no longer ordered against each other")
     chk.cov["model_sensitivity"] = ("Tol=10 (compareFloat uses dtypeutils.AlmostEquals, |a-b|<1e-4 => EQUAL) makes `less` fail the "
                                     "strict-weak-order laws at model level - replay candidate, see the C05:sort:values-closer-than-1e-4 keys")
 
@@ -593,7 +689,7 @@ def run(chk):
             slines += beh
         _phase("gen sort")
         less_fn(chk, binary, sc, slines)
-        sample = vlib.sample(slines, 4000 if quick else 30000, chk.seed)
+        sample = by_features(slines, 4000 if quick else 30000, random.Random(chk.seed))
         sort_fn(chk, binary, sc, sample, rnd, quick)
     finally:
         vlib.rmtree(sc)
@@ -664,10 +760,9 @@ def run(chk):
         raise vlib.Infra("e2e: %d layouts not realised" % infra)
 
     # sort e2e
-    scand = [b for b in slines if len(b["tbl"]) >= 2]
-    rnd.shuffle(scand)
+    scand = by_features([b for b in slines if len(b["tbl"]) >= 2], 72 if quick else 500, rnd)
     scases = []
-    for b in scand[: (48 if quick else 500)]:
+    for b in scand:
         n = len(b["tbl"])
         sizes = rnd.choice(compositions(n))
         scases.append({"line": b, "sizes": sizes, "layout": [rnd.choice(["blk", "seg"]) for _ in sizes], "rotate_last": rnd.random() < 0.5,
@@ -703,7 +798,7 @@ def run(chk):
         "timestamps are small integers added to a fixed epoch; a record is (timestamp, segment, block, ordinal)",
         "ties (equal timestamps / equal sort keys) may be returned in any order: compared as timestamp sequences and id sets",
         "the order of segments with equal end time is the model's nondeterministic choice (sort.Slice), all choices explored",
-        "sort values: 13 representatives (numbers in 1e-5 units incl. pairs closer than 1e-4, numeric strings, strings, missing)",
+        "sort values: 17 representatives (numbers in 1e-5 units incl. pairs closer than 1e-4, numeric strings, numeric-looking non-number strings (IP, date, a-b), words, missing)",
     ]
     chk.describe(rule="TLC enumerates every layout / every (sort spec, table); each generated behaviour is one replay. distinct_nontrivial = "
                       "distinct layouts with >= 3 records replayed at fn level (sampled count) + sort tables with >= 2 rows + e2e layouts / sort "
